@@ -32,7 +32,7 @@ PROPS = {
 PROPS.update({
     "C01": {
         "level": "proof",
-        "text": "Kernel-checked theorems over every label list: at_most_once, handled_were_accepted, rejected_never (state form and on the monitor predicate evaluated on real traces), graceful_complete (everything the loop has dequeued has been handled) and marker_is_next (when the loop dequeues a stop marker everything accepted before it has been dequeued). The model's mailbox is tied to the code by per-run correspondence; the acceptance probe makes 'accepted' observable on the real side; monitors C01.atMostOnce / rejectedNever / gracefulComplete run on every real trace.",
+        "text": "Kernel-checked theorems over every label list: at_most_once, handled_were_accepted, rejected_never (state form and on the monitor predicate evaluated on real traces), graceful_complete (everything the loop has dequeued has been handled) and marker_is_next (when the loop dequeues a stop marker everything accepted before it has been dequeued). The model's mailbox is tied to the code by per-run correspondence; the acceptance probe makes 'accepted' observable on the real side; monitors C01.atMostOnce / rejectedNever / gracefulComplete run on every real trace. Stress scenario `selfchain`: work that keeps itself alive - each handler tells its own actor the next step (directly, through a task holding a clone, or by upgrading a weak handle) after the spawner dropped its handle: every step is handled before on_stop.",
         "note": PROOF_NOTE + "",
         "technique": "Lean 4 invariant proofs (FIFO log, id freshness, rejection) by induction over label sequences + correspondence + Lean monitors on real traces",
         "extra": ["stress"],
@@ -43,7 +43,7 @@ PROPS.update({
     },
     "C02": {
         "level": "proof",
-        "text": "Kernel-checked: handler starts are exactly the envelopes of the taken prefix of the acceptance log, in order; the mailbox is the remaining suffix; an item is accepted at most once; the log only grows at its end - for every schedule, capacity and operation mix, the stop marker being an ordinary item of the same queue. stop() in band: before_stop_handled (everything accepted before the dequeued marker has been handled), after_stop_never_handled (nothing accepted behind a marker is ever handled, in any reachable state), nothing_after_stop_begins (no handler starts once the loop has left its select; via the invariant that the dequeue pointer never passes a marker). Correspondence + monitors C02.fifo / idxInOrder / stopPrefix / stopCallOrder / nothingAfterStopReturned on real traces (acceptance order observed by the probe). Real-time side: stress scenario `cancel` - a tell / ask / stop() cancelled by its caller while parked on a full capacity-1 mailbox was never accepted: it is never delivered, holds no slot, and a later stop() through the same handle, a clone, an upgraded weak reference or a boxed ActorControl stops the actor (everything accepted before it handled, nothing accepted after it returned handled).",
+        "text": "Kernel-checked: handler starts are exactly the envelopes of the taken prefix of the acceptance log, in order; the mailbox is the remaining suffix; an item is accepted at most once; the log only grows at its end - for every schedule, capacity and operation mix, the stop marker being an ordinary item of the same queue. stop() in band: before_stop_handled (everything accepted before the dequeued marker has been handled), after_stop_never_handled (nothing accepted behind a marker is ever handled, in any reachable state), nothing_after_stop_begins (no handler starts once the loop has left its select; via the invariant that the dequeue pointer never passes a marker). Correspondence + monitors C02.fifo / idxInOrder / stopPrefix / stopCallOrder / nothingAfterStopReturned on real traces (acceptance order observed by the probe). Real-time side: stress scenario `cancel` - a tell / ask / stop() cancelled by its caller while parked on a full capacity-1 mailbox was never accepted: it is never delivered, holds no slot, and a later stop() through the same handle, a clone, an upgraded weak reference or a boxed ActorControl stops the actor (everything accepted before it handled, nothing accepted after it returned handled). Net engine (detection build): hooks that tell their own actor with a timeout; on every history a tell that returned Ok before another send to the same actor began is handled first.",
         "note": PROOF_NOTE,
         "technique": "Lean 4 invariant proof (mailbox = suffix of acceptance log) + correspondence + Lean monitors on real traces",
         "extra": ["stress", "netcorr"],
@@ -65,7 +65,7 @@ PROPS.update({
     },
     "C13": {
         "level": "proof",
-        "text": "Kernel-checked for every run: dead letters = failing returns, as lists (each dead letter immediately followed by the failing return of the same operation with the matching reason; successes record none), hence the counter equals the number of failures. Real dead letters are captured from the tracing events by an in-process subscriber and compared event by event with the model; monitor C13.ok on every real trace. Every script is run twice, directly and through the type-erased wrappers (Box<dyn TellHandler/AskHandler/ActorControl>), both against the model, and the forwarder table (28 methods, each forwarding verbatim to the inherent method) is a tie of this property too.",
+        "text": "Kernel-checked for every run: dead letters = failing returns, as lists (each dead letter immediately followed by the failing return of the same operation with the matching reason; successes record none), hence the counter equals the number of failures. Real dead letters are captured from the tracing events by an in-process subscriber and compared event by event with the model; monitor C13.ok on every real trace. Every script is run twice, directly and through the type-erased wrappers (Box<dyn TellHandler/AskHandler/ActorControl>), both against the model, and the forwarder table (28 methods, each forwarding verbatim to the inherent method) is a tie of this property too. Stress scenario `replyclose`: a handler that replies and ends its own actor in the same poll - the asker gets the reply and no dead letter is recorded.",
         "note": PROOF_NOTE,
         "technique": "Lean 4 fold-invariant proof over label sequences + correspondence on captured tracing dead-letter events",
         "monitors": ["C13"],
@@ -79,7 +79,7 @@ PROPS.update({
 PROPS.update({
     "C04": {
         "level": "proof",
-        "text": "Kernel-checked for every run: the actor's hook events form a word of the lifecycle automaton (on_start once and first, handlers never overlapping, on_stop at most once and last, nothing after a panic but the join); on_stop(killed=true) only after a kill() was issued and exactly in the step that consumes the signal; on_stop ran iff the actor ended by stop/kill/unreferenced/on_run error. The same three predicates (C04.accepts, killedOnlyIfKill, stopIffCause) are evaluated on every real trace; causes land at every phase through the generators. Real-time side: stress scenario `backlog` (1-200 tells queued before the actor first runs; on_run default / parked / ticking / failing once the backlog is done; then stop() or drop of the last reference): on_stop(killed=false) runs exactly once, after the failing on_run pass where there is one.",
+        "text": "Kernel-checked for every run: the actor's hook events form a word of the lifecycle automaton (on_start once and first, handlers never overlapping, on_stop at most once and last, nothing after a panic but the join); on_stop(killed=true) only after a kill() was issued and exactly in the step that consumes the signal; on_stop ran iff the actor ended by stop/kill/unreferenced/on_run error. The same three predicates (C04.accepts, killedOnlyIfKill, stopIffCause) are evaluated on every real trace; causes land at every phase through the generators. Real-time side: stress scenario `backlog` (1-200 tells queued before the actor first runs; on_run default / parked / ticking / failing once the backlog is done; then stop() or drop of the last reference): on_stop(killed=false) runs exactly once, after the failing on_run pass where there is one. Stress scenario `hookpanic`: a panic in on_start, a handler, on_tell_result, on_run or on_stop ends the actor - the JoinHandle reports the panic and on_stop does not run afterwards.",
         "note": PROOF_NOTE,
         "technique": "Lean 4 fold-invariant proofs (lifecycle automaton, kill fold, result summary) over label sequences + correspondence + Lean monitors on real traces",
         "monitors": ["C04"],
@@ -115,7 +115,7 @@ PROPS.update({
     },
     "C06": {
         "level": "proof",
-        "text": "Kernel-checked: kill_total (in every state kill() is enabled, returns Ok in its own label, queues nothing, records nothing), kill_bound (on the monitor predicate: after kill() on an actor that had not begun to stop at most one further handler starts, for every schedule and queue content; the bound is shown tight), kill_not_lost, kill_prompt. Monitors C06.killTotal / killBound / killOutcome / leftoversFail on every real trace; burst family lands kills at every phase with full mailboxes. Script family `abandon` (sends given up by their callers while queued, then kill / stop / nothing) and, on settled traces, monitor C06.killEnds: an actor on which kill() has returned has ended (the safety half is kill_not_lost + kill_prompt).",
+        "text": "Kernel-checked: kill_total (in every state kill() is enabled, returns Ok in its own label, queues nothing, records nothing), kill_bound (on the monitor predicate: after kill() on an actor that had not begun to stop at most one further handler starts, for every schedule and queue content; the bound is shown tight), kill_not_lost, kill_prompt. Monitors C06.killTotal / killBound / killOutcome / leftoversFail on every real trace; burst family lands kills at every phase with full mailboxes. Script family `abandon` (sends given up by their callers while queued, then kill / stop / nothing) and, on settled traces, monitor C06.killEnds: an actor on which kill() has returned has ended (the safety half is kill_not_lost + kill_prompt). On the single-threaded correspondence the monitors are the atomic ones: after a kill() that returned on a not-yet-stopping actor no handler starts (killBoundAtomic), no on_run pass begins or completes (noRunAfterKill) and the next on_stop is on_stop(true) (killWins).",
         "note": PROOF_NOTE,
         "technique": "Lean 4 fold-invariant proof (budget argument over the split select) + correspondence + Lean monitors on real traces",
         "extra": ["stress"],
@@ -165,7 +165,7 @@ PROPS.update({
 PROPS.update({
     "C12": {
         "level": "proof",
-        "text": "Kernel-checked: a panic in any hook surfaces as a panic JoinError with nothing running after it (C04/C05 theorems, which quantify over all runs including every crash point), the victim's pending and later senders complete with errors (C03.completes), the deliberate deadlock panic changes nothing of other actors (deadlock_panic_is_local), the wait-for map is never corrupted in any reachable state (graph_never_corrupted = the C15 invariant), asks to a dead actor are resumable. The lock is released before the panic (extracted). Real side: multi-actor histories with scripted panics at arbitrary handler positions, replayed on the protocol model, plus a poisoned-lock probe after every macro-step; single-actor scripts panic in on_start / k-th handler / k-th on_run / on_stop and are compared step by step.",
+        "text": "Kernel-checked: a panic in any hook surfaces as a panic JoinError with nothing running after it (C04/C05 theorems, which quantify over all runs including every crash point), the victim's pending and later senders complete with errors (C03.completes), the deliberate deadlock panic changes nothing of other actors (deadlock_panic_is_local), the wait-for map is never corrupted in any reachable state (graph_never_corrupted = the C15 invariant), asks to a dead actor are resumable. The lock is released before the panic (extracted). Real side: multi-actor histories with scripted panics at arbitrary handler positions, replayed on the protocol model, plus a poisoned-lock probe after every macro-step; single-actor scripts panic in on_start / k-th handler / k-th on_run / on_stop and are compared step by step. Stress scenario `hookpanic` (see C04): the panic is reported, nothing queued behind it is handled, later sends fail.",
         "note": PROOF_NOTE + " Isolation of Tokio tasks (a panic unwinds only its task) is a property of the runtime, assumed.",
         "technique": "Lean 4 theorems on the actor model and on the wait-for protocol model + replay of real multi-actor histories on the model",
         "monitors": ["C03", "C04", "C05", "C13"],
@@ -240,11 +240,11 @@ PROPS.update({
 PROPS.update({
     "C18": {
         "level": "proof",
-        "text": "PARTIAL (transparency of the tracing crate's span machinery and of task_local scoping is assumed, see the end of this text). Kernel-checked: (metrics) extra_ref_neutral - while a handler runs the envelope's own reference keeps strongCount >= 1, so the guard's extra reference clone (alive from before the handler call to the end of the arm) changes no closed/alive/upgrade test in any reachable state; count_exact (C20) shows the guard only records. (deadlock-detection) detection_silent_without_cycle - in the protocol model an ask that closes no cycle takes the same step whether or not detection is compiled in, apart from the bookkeeping map (C14.waits_otherwise / C15.sound: a panic needs a real chain). (tracing, test-utils) every feature-gated site of src/*.rs is read from the source on every run and classified (feature_sites_shape): tracing sites are spans, instrument attributes, log macros and a clock read used only by a log line; test-utils sites are the dead-letter counter; no unclassified site. Real side: the same seeded scripts run on harness builds with default features and with all four features (thorough: all 15 non-empty subsets); every build is compared step by step with the one model AND the builds' raw traces are compared byte for byte; multi-actor programs (asks between actors, timeouts, panics, kills, small mailboxes, concurrent asks) are compared between builds whenever they contain no ask cycle (by construction, or - general programs - when the detecting build saw no justified deadlock; an unjustified deadlock report is a violation). NOT proved: that the tracing crate's span/instrument machinery and task_local scoping are behaviourally transparent (assumed; exercised by the builds).",
+        "text": "PARTIAL (transparency of the tracing crate's span machinery and of task_local scoping is assumed, see the end of this text). Kernel-checked: (metrics) extra_ref_neutral - while a handler runs the envelope's own reference keeps strongCount >= 1, so the guard's extra reference clone (alive from before the handler call to the end of the arm) changes no closed/alive/upgrade test in any reachable state; count_exact (C20) shows the guard only records. (deadlock-detection) detection_silent_without_cycle - in the protocol model an ask that closes no cycle takes the same step whether or not detection is compiled in, apart from the bookkeeping map (C14.waits_otherwise / C15.sound: a panic needs a real chain). (tracing, test-utils) every feature-gated site of src/*.rs is read from the source on every run and classified (feature_sites_shape): tracing sites are spans, instrument attributes, log macros and a clock read used only by a log line; test-utils sites are the dead-letter counter; no unclassified site. Real side: the same seeded scripts run on harness builds with default features and with all four features (thorough: all 15 non-empty subsets); every build is compared step by step with the one model AND the builds' raw traces are compared byte for byte; multi-actor programs (asks between actors, timeouts, panics, kills, small mailboxes, concurrent asks) are compared between builds whenever they contain no ask cycle (by construction, or - general programs - when the detecting build saw no justified deadlock; an unjustified deadlock report is a violation). NOT proved: that the tracing crate's span/instrument machinery and task_local scoping are behaviourally transparent (assumed; exercised by the builds). The tables engine (all-features build) checks that the configured default capacity is process-wide: set on one thread, it governs spawn() on any other.",
         "note": PROOF_NOTE,
         "technique": "Lean 4 theorems (reference-count neutrality, detection silent without a cycle) + extracted inventory of feature-gated sites + differential correspondence across feature builds",
         "monitors": ["C01", "C02", "C03", "C04", "C05", "C13"],
-        "extra": ["featcorr"],
+        "extra": ["featcorr", "tables"],
         "corr": corr(["mixed", "shutdown"], nq=60, nt=500),
         "extract_items": ["feature_sites", "metrics_placement", "ask_protocol", "lifecycle"],
         "assumptions": COMMON_ASSUME + ["tracing::Span / #[instrument] / task_local scope wrappers only wrap the future they are given"],
